@@ -150,16 +150,20 @@ theorem calcGen_eq (t : Tol) (L : ℚ) (o : Oracle) (v : Vals) :
     simp only [allFive, List.all_cons, List.all_nil, Bool.and_true]
     cases decide (Q.c2c ∈ K) <;> cases decide (Q.count ∈ K) <;> cases decide (Q.end_ ∈ K) <;>
       cases decide (Q.start ∈ K) <;> cases decide (Q.total ∈ K) <;> rfl
-  have hN : calcRounds = 12 := by decide
+  have hN : calcRounds = CBV.Gen.c03CalcLoop.1 := by decide
   obtain ⟨rels, hrels⟩ : ∃ rels, relTable = some rels := by
     cases h : relTable with
     | none => exact absurd h (by decide)
     | some r => exact ⟨r, rfl⟩
-  have key := loopGen_eq t L o rels _ hreq v 12 v.known [] 0
+  have key := loopGen_eq t L o rels _ hreq v CBV.Gen.c03CalcLoop.1 v.known [] 0
+  simp only [CBV.Gen.c03CalcLoop] at hN key
   simp only [calcGen, CBV.Gen.c03CalcLoop, List.mapM_cons, List.mapM_nil, Q.ofString?, hrels, calculate, plan, hN,
     Option.map_some]
   simp only [runSteps, contGen, pure, Except.pure, finish] at key
   simp [key, pure, Except.pure]
-  cases runSteps t L o (planLoop rels 12 v.known [] 0).1 v with
+  generalize runSteps t L o _ v = x
+  cases x with
   | error e => rfl
   | ok v' => rfl
+
+end CBV.C03
